@@ -257,6 +257,15 @@ func (w *worker) myShapes() []*shape {
 	return out
 }
 
+// decodeKey: the innermost function of core on the stack of a panic (or of a dying process) names the failing decoder most
+// narrowly, whatever object it was reached through; otherwise the schema line that owns the corrupted item does.
+func decodeKey(dc dcase, stack string) string {
+	if site := panicSite(stack); site != "" {
+		return "decode/" + site + "/" + dc.Class
+	}
+	return dc.key()
+}
+
 func decodePayload(sh *shape, ci int, dc dcase) map[string]any {
 	return map[string]any{"entry": "DecodeFrom", "type": sh.Type, "shape": sh.Idx, "case": ci, "class": dc.Class, "variant": dc.Variant,
 		"owner": dc.Owner, "member": dc.Path, "bytes_hex": capHex(dc.B), "valid_encoding_hex": capHex(sh.Bytes)}
@@ -298,7 +307,7 @@ func (w *worker) decodeAll() {
 					fail: func(kind string, o outcome, alloc uint64) {
 						p := decodePayload(sh, ci, dc)
 						p["outcome"], p["panic"], p["stack"], p["allocated"] = kind, o.Panic, o.Stack, alloc
-						w.violation(key, fmt.Sprintf("%s.DecodeFrom %s on %s %s of %s.%s (%d bytes)", sh.Type, describe(kind, o, alloc, len(dc.B)), dc.Class, dc.Variant, dc.Owner, dc.Path, len(dc.B)), p)
+						w.violation(decodeKey(dc, o.Stack), fmt.Sprintf("%s.DecodeFrom %s on %s %s of %s.%s (%d bytes)", sh.Type, describe(kind, o, alloc, len(dc.B)), dc.Class, dc.Variant, dc.Owner, dc.Path, len(dc.B)), p)
 					}})
 			}
 			w.runBatch(ui, items, ul)
